@@ -13,10 +13,12 @@ The full compiler-correctness statement, for the whole core language, is
     compile_correct : WellScoped e → run (compile e) σ = evalCore e ρ        (σ represents ρ)
 
 i.e. `compile_correct_F1` below without the hypothesis `inF1 e`. What is proved is
-`compile_correct_partial` (= the highest rung of the ladder, F1). Missing cases, in the order
-they would be added: string constants, record construction and record patterns (need the
-monotonicity of the per-function string / record tables; the `Split` / `GetOffset` prologues of
-`compile_let_pattern`), upvalues, `Call`/`TailCall` with frames (F2), `Named::Recursive`
+`compile_correct_partial` (= the highest complete rung of the ladder, F1; of F2 the machine half
+`call_return_exact_F2` / `call_compiled_function_F2` is proved). Missing cases, in the order
+they would be added: record patterns through `Split` (small records) and `GetField` (open rows)
+— the `GetOffset` prologue of `compile_let_pattern` is covered —, float and string literal
+patterns, `Call`/`TailCall` with frames (F2),
+`Named::Recursive`
 closures (`NewClosure`/`CloseClosure`, F3), partial application and excess arguments (F4).
 Beyond the proved rung the claim rests on the exact-bytecode and run correspondences above.
 -/
@@ -57,7 +59,8 @@ example : Generated.adjustGen .slide [4] = -4 := by decide
 /-! ### Compiler correctness -/
 
 mutual
-/-- no `&&`, `||`, `Match` anywhere: the code has no jump -/
+/-- no `&&`, `||`, and no `Match` other than a record projection / record `let`: the code never
+    branches (the only jump goes to the next instruction) -/
 def noBranch : Expr → Bool
   | .const _ => true
   | .ident _ => true
@@ -70,86 +73,188 @@ def noBranch : Expr → Bool
      | _ => true) && noBranch f && noBranchs args
   | .data _ args => noBranchs args
   | .letRec _ _ => false
-  | .match_ _ _ => false
+  | .match_ s alts =>
+    -- a record pattern as the only alternative has no test: straight-line code
+    match alts with
+    | [(p, e)] => isRec p && noBranch s && noBranch e
+    | _ => false
 def noBranchs : List Expr → Bool
   | [] => true
   | e :: es => noBranch e && noBranchs es
 end
 
-/-- F1: constants (not strings), identifiers on the stack, `Cast`, non-recursive `Let`,
-    primitive binary operators, `Data` (variants, arrays), `&&`, `||`, `Match` over
-    constructor / identifier / int, char, byte literal patterns (so also `if`). -/
+/-- F1: constants (the string table included), identifiers (stack slots and upvalues), `Cast`,
+    non-recursive `Let`, primitive binary operators, `Data` (variants, arrays, records with the
+    record-map table), `&&`, `||`, `Match` over constructor / identifier / int, char, byte
+    literal patterns (so also `if`), and `Match` with a single record-pattern alternative on a
+    closed row that the compiler turns into `GetOffset`s (record projection `e.f`, `let {…} = e`
+    on records with more than four fields, or binding no field). -/
 def inF1 (e : Expr) : Bool := inF e
 
-/-- F0: the straight-line part of F1. -/
+/-- F0: the straight-line part of F1 (Const, Ident, Cast, Let, primitive binops, Data, record
+    projection by `GetOffset`). -/
 def inF0 (e : Expr) : Bool := inF e && noBranch e
 
 /-- **F1.** The code the model compiler emits for `e` at index `b` (`compile`, i.e. with the
     final `Slide`), placed anywhere in a function's instruction list (`SegAt`: the code is
     `pre ++ compile e pre.length ++ post`, jump targets are absolute), started on a frame-local
     stack `stk` in which every variable of the environment sits in the slot the compiler
-    recorded for it, runs to the end of the segment and leaves exactly `stk ++ [v]` when the
+    recorded for it — or, if it is not a stack variable of this function, in the upvalue of
+    that name (`Agree`) — in a function whose string / record tables and upvalue list extend
+    the compiler's (`Tables`), runs to the end of the segment and leaves exactly `stk ++ [v]` when the
     semantics gives `v`; when the semantics gives the arithmetic error (overflow, division by
     zero) the machine stops with that error. Holds for every `tail` flag, start index, compiler
     state and heap; nothing below the top of `stk` changes. (`evalCore` answers `wrong …` for
     ill-scoped / ill-typed programs and for a `Match` none of whose alternatives applies — the
     translator adds a default alternative — so those are outside the statement.) -/
 theorem compile_correct_F1 (seIdx : Nat) (e : Expr) (hF : inF1 e = true)
-    (tail : Bool) (b : Nat) (st : FState) (fn : Fn) (upv : List Val) (h : Heap) (fuel : Nat)
-    (ρ : Env) (stk : List Val)
+    (tail : Bool) (b : Nat) (st : FState) (fn : Fn) (upv : List Val) (fv : List Sym) (h : Heap)
+    (fuel : Nat) (ρ : Env) (stk : List Val)
     (hseg : SegAt fn.instrs b (compileE seIdx e tail b st).1)
-    (hlen : stk.length = st.stackSize) (hag : Agree st.scopes ρ stk)
+    (htab : Tables (compileE seIdx e tail b st).2 fn fv)
+    (hlen : stk.length = st.stackSize) (hag : Agree fv upv st.scopes ρ stk)
     (hdum : lookup ρ dummySym = none) :
     (∀ v, evalCore fuel ρ e = .ok v →
       Exec fn upv h b stk (b + (compileE seIdx e tail b st).1.length) (stk ++ [v])) ∧
     (evalCore fuel ρ e = .error .arith → ExecErr fn upv h b stk .arith) :=
-  ((wrap_of_body (body_spec seIdx e hF)) tail b st).2.2 fn upv h fuel ρ stk hseg hlen hag hdum
+  ((wrap_of_body (body_spec seIdx e hF)) tail b st).2.2.2 fn upv fv h fuel ρ stk hseg htab hlen hag
+    hdum
 
-/-- **F0** (straight-line code: Const, Ident on the stack, Let, primitive binop, Data, Slide):
-    the first rung, a special case of F1. -/
+/-- **F0** (straight-line code: Const, Ident, Let, primitive binop, Data, record projection by
+    `GetOffset`, Slide): the first rung, a special case of F1. -/
 theorem compile_correct_F0 (seIdx : Nat) (e : Expr) (hF : inF0 e = true)
-    (tail : Bool) (b : Nat) (st : FState) (fn : Fn) (upv : List Val) (h : Heap) (fuel : Nat)
-    (ρ : Env) (stk : List Val)
+    (tail : Bool) (b : Nat) (st : FState) (fn : Fn) (upv : List Val) (fv : List Sym) (h : Heap)
+    (fuel : Nat) (ρ : Env) (stk : List Val)
     (hseg : SegAt fn.instrs b (compileE seIdx e tail b st).1)
-    (hlen : stk.length = st.stackSize) (hag : Agree st.scopes ρ stk)
+    (htab : Tables (compileE seIdx e tail b st).2 fn fv)
+    (hlen : stk.length = st.stackSize) (hag : Agree fv upv st.scopes ρ stk)
     (hdum : lookup ρ dummySym = none) :
     (∀ v, evalCore fuel ρ e = .ok v →
       Exec fn upv h b stk (b + (compileE seIdx e tail b st).1.length) (stk ++ [v])) ∧
     (evalCore fuel ρ e = .error .arith → ExecErr fn upv h b stk .arith) :=
   compile_correct_F1 seIdx e (by simp only [inF0, Bool.and_eq_true] at hF; exact hF.1)
-    tail b st fn upv h fuel ρ stk hseg hlen hag hdum
+    tail b st fn upv fv h fuel ρ stk hseg htab hlen hag hdum
 
 /-- The compiler's own model of the stack is right: after the code of `e` the compile-time
-    `stack_size` has grown by exactly one and the scopes are as before. -/
+    `stack_size` has grown by exactly one, the scopes are as before, and the function's tables
+    (upvalue names, string constants, record maps) have only been extended, so indices handed
+    out earlier stay valid. -/
 theorem compile_stack_discipline_F1 (seIdx : Nat) (e : Expr) (hF : inF1 e = true)
     (tail : Bool) (b : Nat) (st : FState) :
     (compileE seIdx e tail b st).2.scopes = st.scopes ∧
-    (compileE seIdx e tail b st).2.stackSize = st.stackSize + 1 :=
+    (compileE seIdx e tail b st).2.stackSize = st.stackSize + 1 ∧
+    Ext st (compileE seIdx e tail b st).2 :=
   ⟨((wrap_of_body (body_spec seIdx e hF)) tail b st).1,
-   ((wrap_of_body (body_spec seIdx e hF)) tail b st).2.1⟩
+   ((wrap_of_body (body_spec seIdx e hF)) tail b st).2.1,
+   ((wrap_of_body (body_spec seIdx e hF)) tail b st).2.2.1⟩
 
-/-- Closed programs: the function `compile_expr` builds for a closed F1 expression, run from
-    its first instruction on an empty frame, reaches its `Return` with the value of the
+/-- Whole modules: the function `compile_expr` builds for an F1 expression whose only free
+    variables are globals, run from its first instruction on an empty frame with the globals'
+    values as upvalues (vm.rs:66 `new_bytecode`), reaches its `Return` with the value of the
     semantics as the only thing on the stack, or fails with the arithmetic error. -/
-theorem compile_correct_F1_closed (seIdx : Nat) (e : Expr) (hF : inF1 e = true)
-    (upv : List Val) (h : Heap) (fuel : Nat) :
+theorem compile_correct_F1_module (seIdx : Nat) (e : Expr) (hF : inF1 e = true)
+    (upv : List Val) (h : Heap) (fuel : Nat) (ρ : Env) (hdum : lookup ρ dummySym = none)
+    (hglob : ∀ x v, lookup ρ x = some v →
+      ∃ k, indexOfSym (compileModule seIdx e).1 x = some k ∧ upv[k]? = some v) :
     let fn := (compileModule seIdx e).2.1
-    (∀ v, evalCore fuel [] e = .ok v →
+    (∀ v, evalCore fuel ρ e = .ok v →
       ∃ pc, Exec fn upv h 0 [] pc [v] ∧ fn.instrs[pc]? = some .ret) ∧
-    (evalCore fuel [] e = .error .arith → ExecErr fn upv h 0 [] .arith) := by
+    (evalCore fuel ρ e = .error .arith → ExecErr fn upv h 0 [] .arith) := by
   intro fn
   have hseg : SegAt fn.instrs 0 (compileE seIdx e true 0 FState.empty).1 := by
     intro k hk
     show ((compileE seIdx e true 0 FState.empty).1 ++ [Instr.ret])[0 + k]? = _
     rw [Nat.zero_add, List.getElem?_append_left hk]
-  have hag : Agree FState.empty.scopes [] [] := by
-    intro x v hx; simp [lookup] at hx
-  obtain ⟨hok, herr⟩ := compile_correct_F1 seIdx e hF true 0 FState.empty fn upv h fuel [] []
-    hseg rfl hag rfl
+  have htab : Tables (compileE seIdx e true 0 FState.empty).2 fn (compileModule seIdx e).1 :=
+    ⟨List.prefix_refl _, List.prefix_refl _, List.prefix_refl _⟩
+  have hag : Agree (compileModule seIdx e).1 upv FState.empty.scopes ρ [] := by
+    intro x v hx
+    exact Or.inr ⟨rfl, hglob x v hx⟩
+  obtain ⟨hok, herr⟩ := compile_correct_F1 seIdx e hF true 0 FState.empty fn upv
+    (compileModule seIdx e).1 h fuel ρ [] hseg htab rfl hag hdum
   refine ⟨fun v hv => ⟨(compileE seIdx e true 0 FState.empty).1.length, ?_, ?_⟩, herr⟩
   · simpa using hok v hv
   · show ((compileE seIdx e true 0 FState.empty).1 ++ [Instr.ret])[_]? = _
     simp
+
+/-- **End to end, on the whole machine** (value stack, frames, heap; `Bytecode.run` is the
+    model the `runbc` correspondence validates against the real VM): for an F1 module whose free
+    variables are globals, `run (compile e)` *is* `evalCore e` — the model VM started by
+    `call_thunk` on the compiled module with the globals' values as upvalues answers the value
+    the semantics assigns (with the heap it started with), or the arithmetic failure the
+    semantics assigns, for every sufficiently large step budget. -/
+theorem compile_correct_F1_run (seIdx : Nat) (e : Expr) (hF : inF1 e = true)
+    (globals : List Val) (fuel : Nat) (ρ : Env) (hdum : lookup ρ dummySym = none)
+    (hglob : ∀ x v, lookup ρ x = some v →
+      ∃ k, indexOfSym (compileModule seIdx e).1 x = some k ∧ globals[k]? = some v) :
+    let fn := (compileModule seIdx e).2.1
+    (∀ v, evalCore fuel ρ e = .ok v →
+      ∃ n, ∀ m, runModule (n + m) fn globals = .ok (v, { clos := [(fn, globals)], data := [] })) ∧
+    (evalCore fuel ρ e = .error .arith →
+      ∃ n, ∀ m, runModule (n + m) fn globals = .error .arith) := by
+  intro fn
+  obtain ⟨hok, herr⟩ := compile_correct_F1_module seIdx e hF globals
+    { clos := [(fn, globals)], data := [] } fuel ρ hdum hglob
+  refine ⟨fun v hv => ?_, fun he => runModule_of_execErr (herr he)⟩
+  obtain ⟨pc, hex, hret⟩ := hok v hv
+  exact runModule_of_exec hex hret
+
+/-! ### Rung F2 (partial): calls of exact arity, with frames -/
+
+/-- **F2, the machine half: `Call` / `Return` with frames, exact arity.** On the whole machine
+    (`Bytecode.step`: thread.rs `Call` :2183, `do_call` :2752, `call_function_with_upvars`
+    `Ordering::Equal` :2711, `Return` :2527): if the callee's code, started at 0 on its
+    arguments in its own frame, runs to a `Return` with `args ++ [v]`, then a `Call n` in the
+    caller replaces function and arguments by `v`; everything below (the caller's locals, the
+    rest of the value stack, the other frames) and the heap are untouched, and the caller
+    resumes at the next instruction. -/
+theorem call_return_exact_F2 {fn g : Fn} {upv gupv : List Val} {h : Heap} {pc pcR id n : Nat}
+    {below stk args : List Val} {v : Val} {fr : Frame} {rest : List Frame}
+    (ho : fr.offset = below.length) (hpc : fr.pc = pc)
+    (hc : h.clos[fr.clos]? = some (fn, upv)) (hi : fn.instrs[pc]? = some (.call n))
+    (hg : h.clos[id]? = some (g, gupv)) (hn : g.args = n) (hargs : args.length = n)
+    (hbody : Exec g gupv h 0 args pcR (args ++ [v])) (hret : g.instrs[pcR]? = some .ret) :
+    ∃ k, ∀ m,
+      run (k + m) { stack := below ++ (stk ++ [.cref id] ++ args), frames := fr :: rest, heap := h } =
+      run m { stack := below ++ (stk ++ [v]), frames := { fr with pc := pc + 1 } :: rest, heap := h } :=
+  call_return_exact ho hpc hc hi hg hn hargs hbody hret
+
+/-- **F2 for compiled functions with an F1 body.** Take the function `compile_lambda` builds
+    for `\params -> body` (`body` in F1), held by a closure `id` whose upvalues carry the closure's
+    environment `ρc`. A `Call` with exactly `params.length` arguments, anywhere in any caller,
+    yields the value `evalCore` assigns to `body` under `params ↦ args` — on the whole machine,
+    with the caller's frame, the stack below and the heap untouched. (What is *not* proved here is
+    the other half of F2–F3: that the code the compiler emits for a `Call` expression and for
+    `Named::Recursive` puts exactly such a closure and such arguments on the stack; that needs
+    a relation between `evalCore` closures and heap closures.) -/
+theorem call_compiled_function_F2 (seIdx : Nat) (params : List Sym) (body : Expr)
+    (hF : inF1 body = true) (hnd : params.contains dummySym = false)
+    {fn : Fn} {upv gupv : List Val} {h : Heap} {pc id : Nat}
+    {below stk args : List Val} {fr : Frame} {rest : List Frame}
+    (fuel : Nat) (ρc : Env) (v : Val)
+    (ho : fr.offset = below.length) (hpc : fr.pc = pc)
+    (hc : h.clos[fr.clos]? = some (fn, upv)) (hi : fn.instrs[pc]? = some (.call params.length))
+    (hg : h.clos[id]? = some
+      (mkFn params.length (compileE seIdx body true 0 (innerStart params)).1
+        (compileE seIdx body true 0 (innerStart params)).2, gupv))
+    (hargs : params.length = args.length) (hdum : lookup ρc dummySym = none)
+    (hup : ∀ x w, lookup ρc x = some w →
+      ∃ k, indexOfSym (compileE seIdx body true 0 (innerStart params)).2.freeVars x = some k ∧
+        gupv[k]? = some w)
+    (hev : evalCore fuel (bindAll params args ρc) body = .ok v) :
+    ∃ k, ∀ m,
+      run (k + m) { stack := below ++ (stk ++ [.cref id] ++ args), frames := fr :: rest, heap := h } =
+      run m { stack := below ++ (stk ++ [v]), frames := { fr with pc := pc + 1 } :: rest, heap := h } := by
+  obtain ⟨pcR, hex, hret⟩ := lambda_body_exec seIdx params body hF hnd gupv h fuel ρc args v hargs
+    hdum hup hev
+  exact call_return_exact ho hpc hc hi hg rfl hargs.symm hex hret
+
+/-- `Exec` (used in the statements above) is a statement about `runLocal`, the iteration of the
+    interpreter loop: it computes exactly that transition. -/
+theorem exec_is_runLocal (fn : Fn) (upv : List Val) (h : Heap) (pc : Nat) (s : List Val)
+    (pc' : Nat) (s' : List Val) (a : Exec fn upv h pc s pc' s') :
+    ∃ n, ∀ m, runLocal fn upv (n + m) pc s h = runLocal fn upv m pc' s' h :=
+  a.runLocal
 
 /-! Non-vacuity -/
 def exX : Sym := ⟨"x", 1⟩
@@ -181,6 +286,7 @@ def exBranch : Expr :=
 example : inF1 exBranch = true := by rfl
 example : inF0 exBranch = false := by rfl
 example : evalCore 20 [] exBranch = .ok (.int 5) := by rfl
+example : (runModule 100 (compileModule 5 exBranch).2.1 []).map (·.1) = .ok (.int 5) := by rfl
 example : (compileModule 5 exBranch).2.1.instrs =
     [.pushInt 5, .constructVariant 1 1, .push 0, .testTag 0, .cJump 7, .testTag 1, .cJump 10,
      .split, .pushInt 0, .jump 32, .split, .push 1, .pushInt 3, .intLT, .cJump 19, .pushInt 4,
@@ -188,16 +294,58 @@ example : (compileModule 5 exBranch).2.1.instrs =
      .cJump 27, .split, .push 1, .jump 30, .split, .pushInt 0, .jump 30, .slide 1, .jump 32,
      .slide 1, .ret] := by rfl
 
+/-- `{ a = "s", b = g }` with a global `g` -/
+def exRec : Expr :=
+  .data (.record [⟨"a", 5⟩, ⟨"b", 6⟩]) [.const (.str "s"), .ident ⟨"@g", 0⟩]
+example : inF1 exRec = true := by rfl
+example : evalCore 10 [(⟨"@g", 0⟩, .int 7)] exRec = .ok (.data 0 [.str "s", .int 7] ["a", "b"]) := by
+  rfl
+example : (compileModule 5 exRec).1 = [⟨"@g", 0⟩] ∧
+    (compileModule 5 exRec).2.1.instrs =
+      [.pushString 0, .pushUpVar 0, .constructRecord 0 2, .ret] ∧
+    (compileModule 5 exRec).2.1.strings = ["s"] ∧
+    (compileModule 5 exRec).2.1.records = [[⟨"a", 5⟩, ⟨"b", 6⟩]] := ⟨rfl, rfl, rfl, rfl⟩
+
+/-- `let f x y = x + y in f 1 2`: a closure (`NewClosure`/`CloseClosure`), a tail call of exact
+    arity; outside F1 as a whole, its function body `x + y` is inside -/
+def exF : Sym := ⟨"f", 7⟩
+def exCall : Expr :=
+  .letRec [(exF, [exX, exY], .call (.ident ⟨"#Int+", 3⟩) [.ident exX, .ident exY])]
+    (.call (.ident exF) [.const (.int 1), .const (.int 2)])
+example : inF1 exCall = false := by rfl
+example : inF1 (.call (.ident ⟨"#Int+", 3⟩) [.ident exX, .ident exY]) = true := by rfl
+example : evalCore 20 [] exCall = .ok (.int 3) := by rfl
+example : (compileModule 5 exCall).2.1.instrs =
+    [.newClosure 0 0, .push 0, .closeClosure 0, .push 0, .pushInt 1, .pushInt 2, .tailCall 2,
+     .slide 1, .ret] := by rfl
+example : ((compileModule 5 exCall).2.1.inner.map (·.instrs)) =
+    [[.push 0, .push 1, .addInt, .ret]] := by rfl
+example : (runModule 100 (compileModule 5 exCall).2.1 []).map (·.1) = .ok (.int 3) := by rfl
+
+/-- `{ a = 1, b = 2, c = 3, d = 4, e = 5 }.d`: record projection by `GetOffset` -/
+def exProj : Expr :=
+  .match_ (.data (.record [⟨"a", 1⟩, ⟨"b", 2⟩, ⟨"c", 3⟩, ⟨"d", 4⟩, ⟨"e", 5⟩])
+      [.const (.int 1), .const (.int 2), .const (.int 3), .const (.int 4), .const (.int 5)])
+    [(.record 5 false [⟨"d", some 3, ⟨"d", 9⟩⟩] [none, none, none, some ⟨"d", 9⟩, none],
+      .ident ⟨"d", 9⟩)]
+example : inF1 exProj = true := by rfl
+example : inF0 exProj = true := by rfl
+example : evalCore 20 [] exProj = .ok (.int 4) := by rfl
+example : (compileModule 5 exProj).2.1.instrs =
+    [.pushInt 1, .pushInt 2, .pushInt 3, .pushInt 4, .pushInt 5, .constructRecord 0 5,
+     .push 0, .getOffset 3, .push 1, .slide 2, .jump 11, .ret] := by rfl
+
 /-- What is proved of the full statement `compile_correct` (see the header): the highest rung. -/
 theorem compile_correct_partial (seIdx : Nat) (e : Expr) (hF : inF1 e = true)
-    (tail : Bool) (b : Nat) (st : FState) (fn : Fn) (upv : List Val) (h : Heap) (fuel : Nat)
-    (ρ : Env) (stk : List Val)
+    (tail : Bool) (b : Nat) (st : FState) (fn : Fn) (upv : List Val) (fv : List Sym) (h : Heap)
+    (fuel : Nat) (ρ : Env) (stk : List Val)
     (hseg : SegAt fn.instrs b (compileE seIdx e tail b st).1)
-    (hlen : stk.length = st.stackSize) (hag : Agree st.scopes ρ stk)
+    (htab : Tables (compileE seIdx e tail b st).2 fn fv)
+    (hlen : stk.length = st.stackSize) (hag : Agree fv upv st.scopes ρ stk)
     (hdum : lookup ρ dummySym = none) :
     (∀ v, evalCore fuel ρ e = .ok v →
       Exec fn upv h b stk (b + (compileE seIdx e tail b st).1.length) (stk ++ [v])) ∧
     (evalCore fuel ρ e = .error .arith → ExecErr fn upv h b stk .arith) :=
-  compile_correct_F1 seIdx e hF tail b st fn upv h fuel ρ stk hseg hlen hag hdum
+  compile_correct_F1 seIdx e hF tail b st fn upv fv h fuel ρ stk hseg htab hlen hag hdum
 
 end GluonModel.Props.C01b
